@@ -91,6 +91,10 @@ let qfrom = if dbl then quaternionT_d_mk__v3d_v3d_v3d else quaternionT_f_mk__v3f
 let qypr = if dbl then quaternionT_d_mk__d_d_d else quaternionT_f_mk__f_f_f
 let qslerp = if dbl then slerp__f_QuaternionT_d_QuaternionT_d else slerp__f_QuaternionT_f_QuaternionT_f
 
+let pb (b : bool) = buf := (if isq then (if b then "1/1" else "0/1") else (if b then "1" else "0")) :: !buf
+let twice f x = f x; f x      (* a compound assignment stores and returns the same value: the harness prints both *)
+let pick f d = if dbl then d else f
+
 let run (kind : string) : bool =
   match kind with
   | "l2" ->
@@ -100,6 +104,66 @@ let run (kind : string) : bool =
     pm2 (op_mul__LinearSpace2_LinearSpace2 ii a b); p2 (op_mul__LinearSpace2_v2f ii a v); pm2 (linearSpace2_scale__v2f ii v); true
   | "o2" ->   (* hand model of LinearSpace2::orthogonal() (coq/C06/Ortho.v) over the regenerated callees *)
     let a = m2 () in pm2 (orthogonal ii a); true
+  | "ol2" ->
+    let a = m2 () in let b = m2 () in
+    pm2 (op_add__LinearSpace2 ii a); pm2 (op_div__LinearSpace2_LinearSpace2 ii a b);
+    twice pm2 (op_mul_assign__LinearSpace2_LinearSpace2 ii a b); twice pm2 (op_div_assign__LinearSpace2_LinearSpace2 ii a b);
+    pb (op_eq__LinearSpace2_LinearSpace2 ii a b); pb (op_ne__LinearSpace2_LinearSpace2 ii a b);
+    pb (op_eq__LinearSpace2_LinearSpace2 ii a a); pb (op_ne__LinearSpace2_LinearSpace2 ii a a);
+    pm2 (linearSpace2_mk__ZeroTy ii ()); pm2 (linearSpace2_mk__OneTy ii ()); true
+  | "oa2" ->
+    let a = a2 () in let b = a2 () in
+    twice pa2 (op_mul_assign__AffineSpaceT_LinearSpace2_v2f_AffineSpaceT_LinearSpace2_v2f ii a b); true
+  | "ol3" ->
+    let a = m3 () in let b = m3 () in
+    pm3 (op_add__LinearSpace3 ii a); pm3 (op_div__LinearSpace3_LinearSpace3 ii a b);
+    twice pm3 (op_mul_assign__LinearSpace3_LinearSpace3 ii a b); twice pm3 (op_div_assign__LinearSpace3_LinearSpace3 ii a b);
+    pb (op_eq__LinearSpace3_LinearSpace3 ii a b); pb (op_ne__LinearSpace3_LinearSpace3 ii a b);
+    pb (op_eq__LinearSpace3_LinearSpace3 ii a a); pb (op_ne__LinearSpace3_LinearSpace3 ii a a);
+    pm3 (linearSpace3_mk__ZeroTy ii ()); pm3 (linearSpace3_mk__OneTy ii ()); pm3 (clamp__LinearSpace3 ii a); true
+  | "oa3" ->
+    let a = a3 () in let b = a3 () in let s = n () in
+    pa3 (op_sub__AffineSpaceT_LinearSpace3_v3f ii a); pa3 (op_add__AffineSpaceT_LinearSpace3_v3f ii a);
+    pa3 (op_add__AffineSpaceT_LinearSpace3_v3f_AffineSpaceT_LinearSpace3_v3f ii a b);
+    pa3 (op_sub__AffineSpaceT_LinearSpace3_v3f_AffineSpaceT_LinearSpace3_v3f ii a b);
+    pa3 (op_mul__f_AffineSpaceT_LinearSpace3_v3f ii s a);
+    pa3 (op_div__AffineSpaceT_LinearSpace3_v3f_AffineSpaceT_LinearSpace3_v3f ii a b);
+    twice pa3 (op_mul_assign__AffineSpaceT_LinearSpace3_v3f_AffineSpaceT_LinearSpace3_v3f ii a b);
+    twice pa3 (op_div_assign__AffineSpaceT_LinearSpace3_v3f_AffineSpaceT_LinearSpace3_v3f ii a b);
+    twice pa3 (affineSpaceT_LinearSpace3_v3f_op_assign__AffineSpaceT_LinearSpace3_v3f ii (affineSpaceT_LinearSpace3_v3f_mk__ZeroTy ii ()) a);
+    pb (op_eq__AffineSpaceT_LinearSpace3_v3f_AffineSpaceT_LinearSpace3_v3f ii a b); pb (op_ne__AffineSpaceT_LinearSpace3_v3f_AffineSpaceT_LinearSpace3_v3f ii a b);
+    pb (op_eq__AffineSpaceT_LinearSpace3_v3f_AffineSpaceT_LinearSpace3_v3f ii a a); pb (op_ne__AffineSpaceT_LinearSpace3_v3f_AffineSpaceT_LinearSpace3_v3f ii a a);
+    pa3 (affineSpaceT_LinearSpace3_v3f_mk__ZeroTy ii ()); pa3 (affineSpaceT_LinearSpace3_v3f_mk__OneTy ii ());
+    let l = a.affineSpaceT_LinearSpace3_vec3_l in
+    pa3 (affineSpaceT_LinearSpace3_v3f_mk__v3f_v3f_v3f_v3f ii l.linearSpace3_vx l.linearSpace3_vy l.linearSpace3_vz a.affineSpaceT_LinearSpace3_vec3_p); true
+  | "oq" ->
+    let a = q4 () in let b = q4 () in let s = n () in let v = v3 () in
+    pq ((pick quaternionT_f_mk__f quaternionT_d_mk__d) ii s);
+    pq ((pick quaternionT_f_mk__ZeroTy quaternionT_d_mk__ZeroTy) ii ()); pq ((pick quaternionT_f_mk__OneTy quaternionT_d_mk__OneTy) ii ());
+    twice pq ((pick op_add_assign__QuaternionT_f_f op_add_assign__QuaternionT_d_d) ii a s);
+    twice pq ((pick op_add_assign__QuaternionT_f_QuaternionT_f op_add_assign__QuaternionT_d_QuaternionT_d) ii a b);
+    twice pq ((pick op_sub_assign__QuaternionT_f_f op_sub_assign__QuaternionT_d_d) ii a s);
+    twice pq ((pick op_sub_assign__QuaternionT_f_QuaternionT_f op_sub_assign__QuaternionT_d_QuaternionT_d) ii a b);
+    twice pq ((pick op_mul_assign__QuaternionT_f_f op_mul_assign__QuaternionT_d_d) ii a s);
+    twice pq ((pick op_mul_assign__QuaternionT_f_QuaternionT_f op_mul_assign__QuaternionT_d_QuaternionT_d) ii a b);
+    twice pq ((pick op_div_assign__QuaternionT_f_f op_div_assign__QuaternionT_d_d) ii a s);
+    twice pq ((pick op_div_assign__QuaternionT_f_QuaternionT_f op_div_assign__QuaternionT_d_QuaternionT_d) ii a b);
+    pq ((pick op_add__f_QuaternionT_f op_add__d_QuaternionT_d) ii s a); pq ((pick op_add__QuaternionT_f_f op_add__QuaternionT_d_d) ii a s);
+    pq ((pick op_sub__f_QuaternionT_f op_sub__d_QuaternionT_d) ii s a); pq ((pick op_sub__QuaternionT_f_f op_sub__QuaternionT_d_d) ii a s);
+    pq ((pick op_div__f_QuaternionT_f op_div__d_QuaternionT_d) ii s a); pq ((pick op_div__QuaternionT_f_f op_div__QuaternionT_d_d) ii a s);
+    pq ((pick op_div__QuaternionT_f_QuaternionT_f op_div__QuaternionT_d_QuaternionT_d) ii a b);
+    pq ((pick op_add__QuaternionT_f op_add__QuaternionT_d) ii a);
+    let eq = pick op_eq__QuaternionT_f_QuaternionT_f op_eq__QuaternionT_d_QuaternionT_d
+    and ne = pick op_ne__QuaternionT_f_QuaternionT_f op_ne__QuaternionT_d_QuaternionT_d in
+    pb (eq ii a b); pb (ne ii a b); pb (eq ii a a); pb (ne ii a a);
+    pq ((pick xfmQuaternion__QuaternionT_f_QuaternionT_f xfmQuaternion__QuaternionT_d_QuaternionT_d) ii a b);
+    p3 ((pick xfmNormal__QuaternionT_f_v3f xfmNormal__QuaternionT_d_v3d) ii a v);
+    (if isq then buf := "skip" :: !buf else emit ((pick abs__QuaternionT_f abs__QuaternionT_d) ii a));
+    (if dbl then begin
+       (* float f = float(s): the cast to the C float type *)
+       let f = ii.cast F64 F32 s in
+       pq (op_mul__QuaternionT_d_f ii a f); pq (op_mul__f_QuaternionT_d ii f a) end);
+    true
   | "r2" ->
     let r = n () in let p = v2 () in
     pm2 (linearSpace2_rotate__f ii r); pa2 (affineSpaceT_LinearSpace2_v2f_rotate__v2f_f ii p r); true
